@@ -382,6 +382,8 @@ def check(ctx):
                 if 'Configuration' in repr(t) or t[0] == 'any':
                     reads.append((fn, n))
     covered = set(ev.visited) if hasattr(ev, 'visited') else set()
+    from .shared import expanded_everywhere
+    covered |= expanded_everywhere(ctx)        # helpers whose every call was expanded in place are judged inside their callers
     for fn, n in reads:
         ok = fn.fq in covered
         run.add('C19.sink', fn.module.name, fn.qualname, n, ok,
